@@ -252,6 +252,9 @@ func Run(cfg hx.Config) (*hx.Meta, error) {
 	if err := runS1Generic(cfg, meta); err != nil {
 		return nil, err
 	}
+	if err := runS1Untyped(cfg, meta); err != nil {
+		return nil, err
+	}
 	if err := runE2E(cfg, meta); err != nil {
 		return nil, err
 	}
@@ -533,11 +536,15 @@ var e2ePool = []e2eType{
 	{"K[string]", "K"},
 	{"K[N]", "K"},
 	{"L[string]", "L"},
+	// only used through tys (the classes of untyped.go): as an untyped constant it is spelled 'a' (rune)
+	{"int32", "int32"},
 }
 
 const e2eGeneric = 9 // pool entries from this index on are instantiations of the generic types K and L
 
 const e2eLocal = 7 // pool entries e2eLocal and e2eLocal+1 need an import
+
+const e2eInt32 = 13 // the pool entry int32
 
 var e2eModelFiles = map[string]string{
 	"x/model/m.go": "package model\n\ntype T int\n",
@@ -555,10 +562,15 @@ type e2ePkg struct {
 	reserved []string
 	calls    []Call
 	class    string
+	// the classes of untyped.go
+	lit      map[int]bool // types (index in the package) whose arguments are spelled as untyped constants
+	lineDir  int          // position of a //line directive in a.go (lineDirs)
+	prefixes []string     // not nil: the prefixes of equal and compare, set with -pluginprefix
 }
 
 func (p *e2ePkg) source() string {
 	var b strings.Builder
+	b.WriteString(p.lineDirective(1))
 	b.WriteString("package p\n\n")
 	if p.uses(e2eLocal) {
 		b.WriteString("import xm \"p/x/model\"\n")
@@ -573,6 +585,8 @@ func (p *e2ePkg) source() string {
 	if !p.split() {
 		b.WriteString(p.reservedDecls())
 	}
+	b.WriteString(p.constDecls())
+	b.WriteString(p.lineDirective(2))
 	b.WriteString("func use(")
 	for i := 0; i < p.ntypes; i++ {
 		if i > 0 {
@@ -583,6 +597,9 @@ func (p *e2ePkg) source() string {
 	b.WriteString(") {\n")
 	for ci, c := range p.calls {
 		call := fmt.Sprintf("%s(x%d, y%d)", c.Name, c.T, c.T)
+		if p.lit[c.T] {
+			call = fmt.Sprintf("%s(%s)", c.Name, p.constArgs(c.T, ci))
+		}
 		if c.T >= p.ntypes {
 			call = fmt.Sprintf("%s(x%d)", c.Name, c.T-p.ntypes)
 		} else if (ci+p.id)%3 == 0 {
@@ -695,7 +712,8 @@ func (p *e2ePkg) ctxSexp() string {
 	var b strings.Builder
 	b.WriteString("(ctx (hints")
 	for i := 0; i < p.nvirt(); i++ {
-		if p.ty(i%p.ntypes).hint == "" {
+		if p.ty(i%p.ntypes).hint == "" || p.lit[i] {
+			// newName takes no identifier from an untyped constant type
 			b.WriteString(" ()")
 		} else {
 			b.WriteString(" (" + p.ty(i%p.ntypes).hint + ")")
@@ -712,7 +730,7 @@ func (p *e2ePkg) ctxSexp() string {
 		}
 		b.WriteByte(')')
 	}
-	b.WriteString(") (prefixes (" + strings.Join(e2ePrefixes, " ") + ")) (reserved (" + strings.Join(p.reserved, " ") + ")))")
+	b.WriteString(") (prefixes (" + strings.Join(p.prefs(), " ") + ")) (reserved (" + strings.Join(p.reserved, " ") + ")))")
 	return b.String()
 }
 
@@ -808,12 +826,15 @@ var e2eTypeIndex = func() map[string]int {
 	for i, t := range e2ePool {
 		m[t.goType] = i
 	}
+	m["rune"] = e2eInt32 // the default type of an untyped rune constant is printed under its alias name
 	return m
 }()
 
-func pluginOf(name string) int {
+func pluginOf(name string) int { return pluginOfPrefixes(e2ePrefixes, name) }
+
+func pluginOfPrefixes(prefixes []string, name string) int {
 	best, bl := -1, -1
-	for i, p := range e2ePrefixes {
+	for i, p := range prefixes {
 		if strings.HasPrefix(name, p) && len(p) > bl {
 			best, bl = i, len(p)
 		}
@@ -965,6 +986,7 @@ func runE2E(cfg hx.Config, meta *hx.Meta) error {
 		}
 		pkgs = append(pkgs, p)
 	}
+	pkgs = append(pkgs, extraPkgs(cfg)...)
 	for i, p := range pkgs {
 		p.id = i
 		if p.reserved == nil {
@@ -972,6 +994,13 @@ func runE2E(cfg hx.Config, meta *hx.Meta) error {
 		}
 		// split() alternates on id: both layouts see every kind of definition
 		p.resKind = (i / 2) % len(resKinds)
+		p.lineDir = lineDirOfID[i%len(lineDirOfID)]
+		meta.Count("e2e/line directive " + lineDirs[p.lineDir])
+		for _, c := range p.calls {
+			if pluginOfPrefixes(p.prefs(), c.Name) != c.P {
+				return fmt.Errorf("c11 harness: package %d (%s): %s is not a call of plugin %d under the prefixes %v", i, p.class, c.Name, c.P, p.prefs())
+			}
+		}
 		if len(p.reserved) > 0 {
 			meta.Count("e2e/user names defined as " + resKinds[p.resKind])
 		}
@@ -1107,6 +1136,9 @@ func e2eRun(cfg hx.Config, meta *hx.Meta, p *e2ePkg, src, dir string, a, d, vet 
 	if d {
 		args = append(args, "-dedup")
 	}
+	if p.prefixes != nil {
+		args = append(args, "-pluginprefix=equal="+p.prefixes[0]+",compare="+p.prefixes[1])
+	}
 	args = append(args, ".")
 	cmd := "goderive " + strings.Join(args, " ")
 	g := hx.Goderive(cfg.Goderive, dir, args...)
@@ -1223,6 +1255,20 @@ func e2eRun(cfg hx.Config, meta *hx.Meta, p *e2ePkg, src, dir string, a, d, vet 
 			return true
 		}
 		for k, arg := range call.Args {
+			if tv := info.Types[arg]; tv.Value != nil {
+				// an untyped constant takes the type of the parameter: the type the call was written for is the
+				// default type of the constant, which is the type of the pool entry
+				want := p.ty(p.calls[len(names)-1].T % p.ntypes).goType
+				got := types.TypeString(sig.Params().At(k).Type(), func(*types.Package) string { return "" })
+				if got == "rune" {
+					got = "int32"
+				}
+				if got != want {
+					direct("c11-callsite-types", fmt.Sprintf("call site %s: parameter %d of the generated function has type %s, the argument is an untyped constant whose default type is %s",
+						id.Name, k, got, want), sig.String())
+				}
+				continue
+			}
 			if !types.Identical(sig.Params().At(k).Type(), info.Types[arg].Type) {
 				direct("c11-callsite-types", fmt.Sprintf("call site %s: parameter %d of the generated function has type %s, the argument %s",
 					id.Name, k, sig.Params().At(k).Type(), info.Types[arg].Type), sig.String())
@@ -1231,14 +1277,14 @@ func e2eRun(cfg hx.Config, meta *hx.Meta, p *e2ePkg, src, dir string, a, d, vet 
 		return true
 	})
 	// generated functions, grouped by plugin in file order
-	tables := make([][]string, len(e2ePrefixes))
+	tables := make([][]string, len(p.prefs()))
 	perClass := map[[2]int]int{}
 	for _, decl := range afs[1].Decls {
 		fd, ok := decl.(*ast.FuncDecl)
 		if !ok || fd.Recv != nil {
 			continue
 		}
-		pl := pluginOf(fd.Name.Name)
+		pl := pluginOfPrefixes(p.prefs(), fd.Name.Name)
 		if pl < 0 || fd.Type.Params == nil || len(fd.Type.Params.List) == 0 {
 			continue
 		}
@@ -1272,7 +1318,7 @@ func e2eRun(cfg hx.Config, meta *hx.Meta, p *e2ePkg, src, dir string, a, d, vet 
 	}
 	for k, n := range perClass {
 		if n > 1 {
-			direct("c11-dedup-count", fmt.Sprintf("%d functions generated for plugin %s and type %d", n, e2ePrefixes[k[0]], k[1]), "")
+			direct("c11-dedup-count", fmt.Sprintf("%d functions generated for plugin %s and type %d", n, p.prefs()[k[0]], k[1]), "")
 		}
 	}
 	if vet {
@@ -1284,6 +1330,12 @@ func e2eRun(cfg hx.Config, meta *hx.Meta, p *e2ePkg, src, dir string, a, d, vet 
 	if !a && !d {
 		if after, err := os.ReadFile(filepath.Join(dir, "a.go")); err == nil && string(after) != src {
 			direct("c11-rewrite-without-flag", "user source rewritten although neither flag is set", "")
+		}
+	}
+	if p.split() {
+		// no derive call of z.go is ever renamed: the file stays as it is
+		if after, err := os.ReadFile(filepath.Join(dir, "z.go")); err == nil && string(after) != p.sourceZ() {
+			direct("c11-other-file-rewritten", "z.go, in which no call was renamed, was rewritten", string(after))
 		}
 	}
 	var b strings.Builder
